@@ -43,7 +43,7 @@ def value(v, key, it, in_node):
         return None
     if isinstance(v, bool):
         return 1 if v else 0
-    if key == "metric":
+    if key in ("metric", "bandwidth"):
         return int(round(float(v) * 1000))
     if isinstance(v, float):
         return int(round(v * 1000))
@@ -174,7 +174,7 @@ def actual_rows(game, cfg, it):
                     continue
                 rows.append([8, host, it(fo.name), it(f.name)])
     for l in sim.network.links.values():
-        rows.append([9, it(l.endpoint_a.parent.config.hostname), l.endpoint_a.port_num, it(l.endpoint_b.parent.config.hostname), l.endpoint_b.port_num, int(l.bandwidth)])
+        rows.append([9, it(l.endpoint_a.parent.config.hostname), l.endpoint_a.port_num, it(l.endpoint_b.parent.config.hostname), l.endpoint_b.port_num, int(round(float(l.bandwidth) * 1000))])
     for ref, a in game.agents.items():
         rows.append([10, it(ref), -1 if a.config.type is None else it(a.config.type), -1 if a.config.team is None else it(a.config.team)])
     return rows
@@ -208,4 +208,8 @@ def describe(row, it):
     t = row[0]
     if t in (1, 2, 4, 5):
         return "%s %s" % (ROWNAME[t], [nm(row[1])] + [int(x) for x in row[2:]])
+    if t == 3:      # host, list, position, action, then numeric fields
+        return "%s %s" % (ROWNAME[t], [nm(row[1]), int(row[2]), int(row[3]), nm(row[4])] + [int(x) for x in row[5:]])
+    if t == 9:
+        return "%s %s" % (ROWNAME[t], [nm(row[1]), int(row[2]), nm(row[3]), int(row[4]), int(row[5]) / 1000.0])
     return "%s %s" % (ROWNAME.get(t, t), [nm(x) for x in row[1:]])
